@@ -304,6 +304,17 @@ def run_check(engine: Engine, prop: str, tier: str, seed: int, jobs: int,
             "jobs": jobs,
         }
         coverage.update(engine.extra_evidence(prop, cfg))
+        selftests = os.path.join(VERIF, "selftest_results.json")
+        if os.path.exists(selftests):
+            with open(selftests, encoding="utf-8") as handle:
+                recorded = json.load(handle)
+            coverage["selftests_last_recorded"] = {
+                "repo_commit": recorded.get("repo_commit"),
+                "sensitivity_mutants": recorded.get("sensitivity_mutants", {}).get(prop, {}),
+                "seeded_changes": recorded.get("seeded_changes", {}).get(prop, {}),
+                "determinism": recorded.get("determinism", {}).get(prop, []),
+                "note": recorded.get("note"),
+            }
         evidence = {
             "property_id": prop,
             "tier": tier,
